@@ -280,6 +280,8 @@ def hashtbl_jobs(tier):
         jobs.append(Job("hashtbl-r%d" % rng, H, [rng, 6 if X else 5, 2], wraps=VA_WRAPS, weight=10))
     jobs.append(Job("hashtbl-r2-twin", H, [2, 5 if X else 4, 3], wraps=VA_WRAPS, weight=10))
     jobs.append(Job("hashtbl-r2-putint", H, [2, 4, 4], wraps=VA_WRAPS, weight=10))
+    for rng in (1, 7, 0):
+        jobs.append(Job("hashtbl-pair-r%d" % rng, H, ["pair", rng], wraps=VA_WRAPS, weight=2))
     jobs.append(bigfmt_job("qhashtbl"))
     jobs.append(Job("hashtbl-hugerange", H, ["hugerange"], wraps=VA_WRAPS, flavour="plain", weight=3))   # no sanitizer: 24 GB of untouched calloc pages
     return jobs
